@@ -1,11 +1,13 @@
 """C07 - final lifecycle table is consistent with the delivered messages; listing obligations"""
 from . import lc_common as lc
+from . import c07r
 
 META = {
     "property_id": "C07",
     "technique": "TLC model checking of LcDetector.tla (invariant C07: published table vs delivered messages incl. merge-after-confirm) + replay of "
                  "every TLC behaviour on the real detector (table equality incl. start/end/resume link) + TLC trace validation of tables and of "
-                 "get_sorted_lifecycles_as_vec listings against LcTrace.tla[Check=C07]",
+                 "get_sorted_lifecycles_as_vec listings against LcTrace.tla[Check=C07]; remote listing: LcRemoteListing.tla (key = function of "
+                 "the resume chain, every tie-breaking) + Lifecycles frames of the real `adlt remote` binary validated against LcRemoteListingTrace.tla",
     "design_ref": "DESIGN.md section 6, C05-C08",
     "level_text": "Table consistency is an invariant of the design model over all bounded streams (the phantom-after-confirmed-merge and the "
                   "internal-assert defects were found this way and repaired by fix: commits); every behaviour is executed on the real code with "
@@ -26,3 +28,6 @@ def check(ctx):
                            "--big-tables", "12" if q else "150", "--file-max", "600" if q else "6000", "--huge", "1" if q else "3"],
               scripted=2500 if q else 40000,
               what="final table vs delivered messages; listing obligations")
+    # the listing as the remote server sends it (start_time = resume_start_time, sorted by it): spec/LcRemoteListing*.tla through the real
+    # `adlt remote` binary, every file opened several times (the map's iteration order depends on the lifecycle ids)
+    c07r.run_remote_listing(ctx, q)
